@@ -516,6 +516,16 @@ func (m *Machine) callVN(caller *frame, name string, fn *ssa.Function, args []Va
 		m.call(caller, token.NoPos, args[1], nil)
 		m.path.thread = 0
 		return nil
+	case "CountCalls":
+		sub, ok := args[0].(Str).Concrete()
+		if !ok {
+			m.unsupported("vn.CountCalls with a symbolic name")
+		}
+		m.path.countSub = sub
+		m.path.callCount = 0
+		return nil
+	case "Calls":
+		return ts.BV(uint64(m.path.callCount), 64)
 	case "SchedStart":
 		m.path.sched = true
 		m.cur.parked = false
